@@ -3,6 +3,7 @@
 package protoio
 
 import (
+	"reflect"
 	"bytes"
 	"encoding/binary"
 	"fmt"
@@ -239,16 +240,23 @@ func trunc(b []byte, n int) []byte {
 
 // the reader's reusable buffer never grows beyond its limit
 func c18CheckBuf(r ReadCloser, limit int, fail func(id, f string, a ...any)) {
-	switch rr := r.(type) {
-	case *varintReader:
-		if cap(rr.buf) > limit {
-			fail("alloc-beyond-limit", "varint reader buffer grew to %d bytes with limit %d", cap(rr.buf), limit)
-		}
-	case *uint32Reader:
-		if cap(rr.buf) > limit {
-			fail("alloc-beyond-limit", "uint32 reader buffer grew to %d bytes with limit %d", cap(rr.buf), limit)
-		}
+	if c, ok := c18BufCap(r); ok && c > limit {
+		fail("alloc-beyond-limit", "reader buffer grew to %d bytes with limit %d", c, limit)
 	}
+}
+
+// c18BufCap reads the capacity of the reader's reusable buffer, if it has one (looked up by reflection so that a reader
+// without such a field is simply not subject to this sub-check)
+func c18BufCap(r ReadCloser) (int, bool) {
+	v := reflect.ValueOf(r)
+	if v.Kind() != reflect.Ptr || v.Elem().Kind() != reflect.Struct {
+		return 0, false
+	}
+	f := v.Elem().FieldByName("buf")
+	if !f.IsValid() || f.Kind() != reflect.Slice {
+		return 0, false
+	}
+	return f.Cap(), true
 }
 
 // ---- exhaustive chunkings of small streams
@@ -484,15 +492,8 @@ func c18Arbitrary(data []byte, limit int) (violation string) {
 				return fmt.Sprintf("oversize-accepted/%s", v.Name)
 			}
 		}
-		switch rr := r.(type) {
-		case *varintReader:
-			if cap(rr.buf) > limit {
-				return fmt.Sprintf("alloc-beyond-limit/%s", v.Name)
-			}
-		case *uint32Reader:
-			if cap(rr.buf) > limit {
-				return fmt.Sprintf("alloc-beyond-limit/%s", v.Name)
-			}
+		if c, ok := c18BufCap(r); ok && c > limit {
+			return fmt.Sprintf("alloc-beyond-limit/%s", v.Name)
 		}
 		_ = vi
 	}
